@@ -109,7 +109,7 @@ pub fn cases(ctx: &Ctx) -> Vec<Case> {
         v.push(Case::LibToModel(c));
     }
     // direction 2
-    let n = if ctx.quick() { 300 } else { 6000 };
+    let n = if ctx.quick() { 2400 } else { 40000 };
     let sizes = crate::gen::chunk_sizes();
     for i in 0..n {
         let layers = LAYER_COMBOS[i % 4];
@@ -140,7 +140,7 @@ pub fn cases(ctx: &Ctx) -> Vec<Case> {
             }
         }
     }
-    let nrand = if ctx.quick() { 300 } else { 10000 };
+    let nrand = if ctx.quick() { 3000 } else { 60000 };
     for _ in 0..nrand {
         v.push(Case::Cipher { len: rng.usize_below(70000), aad_len: rng.usize_below(40), split_seed: rng.next(), shape: rng.below(4) as u8 });
     }
